@@ -58,24 +58,34 @@ def run(ck: Checker):
     ck.rule('C08.ARGS', 'no operand label list is mutated in place')
     ck.rule('C08.ENDIAN', 'operands are reversed at entry and every returned product converted back under big_endian')
     ck.rule('C08.PLACEHOLDER', 'placeholder-filled tables are completely overwritten before use in the result (where the function is loop-bounded)')
-    registry(ck, MUL, '_process_mul', 'MulMode')
-    registry(ck, SQ, '_process_square', 'SquareMode')
-    for modname, gen, dn in ((MUL, 'generate_mul', '_process_mul'), (SQ, 'generate_square', '_process_square')):
-        m = repo.mod(modname)
-        f = m.func(gen)
-        src = norm(f)
-        ck.check(f'{dn}[type](' in src and 'big_endian=big_endian' in src and 'circuit.set_outputs(outputs)' in src, 'C08.REG', m, f,
-                 f'{gen} dispatches on the requested mode, forwards big_endian and outputs exactly the returned bits', 'shape changed', construct=f'{gen} dispatch')
-    ck.floor('C08.REG', 14)
-    karatsuba_rule(ck)
+    # shape rules about the same clauses: the registry as a dictionary literal of plain functions, the text of the dispatch, the
+    # split-and-recombine pattern of the Karatsuba family (C08.NUM instantiates those at the widths that trigger the recursion)
+    with ck.soft('C08.GEN (generate_* instantiated for every mode)'):
+        registry(ck, MUL, '_process_mul', 'MulMode')
+        registry(ck, SQ, '_process_square', 'SquareMode')
+        for modname, gen, dn in ((MUL, 'generate_mul', '_process_mul'), (SQ, 'generate_square', '_process_square')):
+            m = repo.mod(modname)
+            f = m.func(gen)
+            src = norm(f)
+            ck.check(f'{dn}[type](' in src and 'big_endian=big_endian' in src and 'circuit.set_outputs(outputs)' in src, 'C08.REG', m, f,
+                     f'{gen} dispatches on the requested mode, forwards big_endian and outputs exactly the returned bits', 'shape changed', construct=f'{gen} dispatch')
+        ck.floor('C08.REG', 14)
+    with ck.soft('C08.NUM (Karatsuba multipliers and the squarer instantiated at the widths that trigger the recursion)'):
+        karatsuba_rule(ck)
     R.check_add_only(ck, 'C08.ADD-ONLY', [MUL, SQ])
     R.check_fresh_generated(ck, 'C08.ADD-ONLY', [MUL, SQ])
     ck.floor('C08.ADD-ONLY', 14)
     R.check_args(ck, eff, 'C08.ARGS', [MUL, SQ])
     R.check_multiset(ck, 'C08.ARGS', [MUL, SQ])
     ck.floor('C08.ARGS', 30)
-    R.check_endian(ck, 'C08.ENDIAN', [MUL, SQ], public, ENDIAN_EXEMPT)
-    ck.floor('C08.ENDIAN', 11)
+    ck.rule('C08.ENDIAN-REL', 'endianness as a relation: for every public generator with a big_endian parameter the big-endian call on operands given most significant bit first returns the reversed result of the little-endian call (both instantiated on equal host circuits, every value of the operand bits)')
+    from .. import num_folds as _nfe
+    _compared = _nfe.fold_endian_rel(ck, 'C08.ENDIAN-REL', [MUL, SQ], public, ENDIAN_EXEMPT)
+    ck.floor('C08.ENDIAN-REL', 3)
+    # the shape rule (reverse at entry, convert every return) knows one way of writing it: soft where the relation was instantiated
+    with ck.soft('C08.ENDIAN-REL (both endiannesses instantiated and compared)'):
+        R.check_endian(ck, 'C08.ENDIAN', [MUL, SQ], public, ENDIAN_EXEMPT, names=_compared)
+    R.check_endian(ck, 'C08.ENDIAN', [MUL, SQ], public, ENDIAN_EXEMPT, but=_compared)
     n = R.check_placeholders(ck, 'C08.PLACEHOLDER', [MUL, SQ], size_range=(1, 2, 3), shift_range=(0, 1, 2))
     ck.need(n >= 2, f'only {n} placeholder-using multipliers could be analysed')
     ck.rule('C07.GADGET', 'compressor gadgets reused by the multipliers satisfy their arithmetic specification (shared with C07)')
@@ -85,6 +95,10 @@ def run(ck: Checker):
     gadget_rules(ck, G.GadgetBench(repo, den))
     with ck.soft('C08.NUM (add_mul_pow2_m1 and add_square_pow2_m1 instantiated as they stand)'):
         transpose_rule(ck)
+    ck.rule('C08.GEN', 'generate_mul / generate_square instantiated for every member of their mode enumerations, widths 1 and 3, both endiannesses: the generated circuit computes a * b / a^2 on every operand value (every mode has a generator, the entry point dispatches on it, forwards the endianness and outputs exactly the returned bits)')
+    from .. import num_folds as _nf
+    _nf.fold_generate(ck, 'C08.GEN')
+    ck.floor('C08.GEN', 2)
     ck.rule('C08.FOLD', 'for-range templates instantiated for small widths, every operand value, both endiannesses, on a host circuit with gates of its own: add_mul_alter = a * b (n + m bits; n + m - 1 when a width is 1) over the folded two-number adders; add_sub_two_numbers (the subtraction of the Karatsuba recombination) = (a - b) mod 2^len(a); while-loop bit counters replaced by their contract')
     from .. import arith_folds
     bench = arith_folds.fold_mul(ck, 'C08.FOLD')
